@@ -288,11 +288,11 @@ theorem set_termvote_persists {S l j} (hr : Reach S l j) (v : Nat) :
   exact ⟨_, _, _, _, _, rfl, h2, openDisk_of_DInv j.ver hd2, rfl, hr.ents⟩
 
 /-- The constructor does not look at `<journal>.tmp`. -/
-theorem openDisk_jtmp (ver : Bytes) (d : Disk) (x : Option Bytes) :
-    openDisk ver { d with jtmp := x } = match openDisk ver d with
+theorem openCore_jtmp (ver : Bytes) (d : Disk) (p0 : List Prim) (x : Option Bytes) :
+    openCore ver { d with jtmp := x } p0 = match openCore ver d p0 with
       | .error e => .error e
       | .ok (a, ps) => .ok ({ a with disk := { a.disk with jtmp := x } }, ps) := by
-  unfold openDisk
+  unfold openCore
   by_cases h0 : d.file.length = 0
   · simp [h0]
   · by_cases h1 : d.file.length < INITIAL_SIZE
@@ -312,6 +312,17 @@ theorem openDisk_jtmp (ver : Bytes) (d : Disk) (x : Option Bytes) :
         cases scan d.file last FIRST_RECORD_OFFSET with
         | error e => rfl
         | ok r => rfl
+
+theorem openDisk_jtmp (ver : Bytes) (d : Disk) (x : Option Bytes) :
+    openDisk ver { d with jtmp := x } = match openDisk ver d with
+      | .error e => .error e
+      | .ok (a, ps) => .ok ({ a with disk := { a.disk with jtmp := x } }, ps) := by
+  unfold openDisk
+  by_cases h0 : d.file.length = 0
+  · simp only [h0, if_true]
+    exact openCore_jtmp ver (applyPrims d (createPrims ver)) _ x
+  · simp only [h0, if_false]
+    exact openCore_jtmp ver d [] x
 
 theorem padTo_length (bs : Bytes) (n : Nat) (h : bs.length ≤ n) : (padTo bs n).length = n := by
   simp [padTo, zeros]; omega
